@@ -19,6 +19,7 @@
 #include <util/check.h>
 #include <util/log.h>
 #include <util/overflow.h>
+#include <util/verif_hooks.h>
 
 #include <cassert>
 #include <cstdint>
@@ -689,12 +690,18 @@ private:
     bool ProcessInput() noexcept
     {
         const auto i{m_input_head.fetch_add(1, std::memory_order_relaxed)};
+        VERIF_YIELD("overlay.claimed");
+        VERIF_ACCESS(&m_inputs, 0, "overlay.ProcessInput.m_inputs");
         if (i >= m_inputs.size()) return false;
 
         auto& input{m_inputs[i]};
+        VERIF_ACCESS(&input.coin, 1, "overlay.ProcessInput.coin");
         input.coin = base->PeekCoin(input.outpoint);
+        VERIF_YIELD("overlay.fetched");
+        VERIF_SYNC_REL(&input.ready);
         // Use release so writing coin above happens before the main thread acquires.
         Assert(!input.ready.test_and_set(std::memory_order_release));
+        VERIF_YIELD("overlay.ready_set");
         input.ready.notify_one();
         return true;
     }
@@ -709,11 +716,15 @@ private:
             Assert(m_input_tail == 0);
             return;
         }
+        VERIF_YIELD("overlay.stop.begin");
         // Skip fetching the rest of the inputs by moving the head to the end.
         m_input_head.store(m_inputs.size(), std::memory_order_relaxed);
+        VERIF_YIELD("overlay.stop.head_moved");
         // Wait for all threads to stop.
         for (auto& future : m_futures) future.wait();
+        VERIF_SYNC_ACQ(this);
         m_futures.clear();
+        VERIF_ACCESS(&m_inputs, 1, "overlay.StopFetching.m_inputs");
         m_inputs.clear();
         m_input_head.store(0, std::memory_order_relaxed);
         m_input_tail = 0;
@@ -726,8 +737,11 @@ private:
         if (m_input_tail < m_inputs.size() && m_inputs[m_input_tail].outpoint == outpoint) {
             // We advance the tail since the input is cached and not accessed through this method again.
             auto& input{m_inputs[m_input_tail++]};
+            VERIF_YIELD("overlay.fetch.before_wait");
             // Wait until the coin is ready to be read. We need acquire so we match the worker thread's release.
             input.ready.wait(/*old=*/false, std::memory_order_acquire);
+            VERIF_SYNC_ACQ(&input.ready);
+            VERIF_ACCESS(&input.coin, 1, "overlay.FetchCoinFromBase.coin");
             // We can move the coin since we won't access this input again.
             return std::move(input.coin);
         }
